@@ -9,6 +9,7 @@ import Genql.Model.Eval
 import Genql.Model.Scan
 import Genql.Model.Sanitize
 import Genql.Model.Codec
+import Genql.Model.Async
 open Lean Genql
 
 abbrev V := Val Float
@@ -202,6 +203,39 @@ def apiResult (r : R V) : R V :=
   | .error .panic => .error .error   -- the API boundary recovers every panic into an error
   | .error e => .error e
 
+/-- run the wait-group protocol model on a schedule: `f name x = x` (the harness's VF_SLOW returns
+    its argument), arguments are integers -/
+def asyncOp (j : Json) : Except String Json := do
+  let rows ← (← j.getObjVal? "rows").getNat?
+  let itemsJ ← (← j.getObjVal? "items").getArr?
+  let items ← itemsJ.toList.mapM fun (it : Json) => do
+    let a ← it.getArr?
+    let st ← (a[0]?.getD Json.null).getStr?
+    let nm ← (a[1]?.getD Json.null).getNat?
+    let strat ← (match st with
+      | "plain" => pure Async.Strategy.plain | "async" => pure .async | "spin" => pure .spin
+      | "spinasync" => pure .spinasync | "once" => pure .once | o => throw s!"strategy {o}")
+    pure ({ strat := strat, name := nm } : Async.Item)
+  let imm ← (← (← j.getObjVal? "imm").getArr?).toList.mapM fun (b : Json) => b.getBool?
+  let args ← (← (← j.getObjVal? "args").getArr?).toList.mapM fun (b : Json) => b.getInt?
+  let sched ← (← (← j.getObjVal? "sched").getArr?).toList.mapM fun (b : Json) => b.getNat?
+  let q : Async.Query Int Int :=
+    { rows := rows, items := items, f := (fun _ x => x),
+      args := (fun c => args.getD c 0), imm := (fun n => imm.getD n false) }
+  let s := Async.run q Async.init sched
+  let total := q.total
+  let cells := (List.range total).map fun c =>
+    match s.col c with
+    | .absent => Json.str "absent"
+    | .ptr => Json.str "ptr"
+    | .val none => Json.null
+    | .val (some v) => Json.num (JsonNumber.fromInt v)
+  let phase := match s.phase with
+    | .run _ => "run" | .post _ => "post" | .returned => "returned" | .failed => "failed"
+  pure (Json.mkObj [("r", "ok"), ("phase", phase), ("wg", Json.num (JsonNumber.fromNat s.wg)), ("cols", Json.arr cells.toArray),
+    ("invoked", Json.arr ((List.range total).map fun c => Json.num (JsonNumber.fromNat (s.invoked c))).toArray),
+    ("done", Json.arr ((List.range total).map fun c => Json.bool (s.task c == .done)).toArray)])
+
 def handle (j : Json) : Json :=
   let id := (j.getObjVal? "id").toOption.getD Json.null
   let res : Except String Json := do
@@ -263,6 +297,9 @@ def handle (j : Json) : Json :=
         pure (Json.mkObj [("id", id), ("r", "ok"), ("hex", Json.str (Codec.hexEncS bs)),
           ("base32", Json.str (Codec.b32EncS bs)), ("base64", Json.str (Codec.b64uEncS bs)),
           ("dec32", dec "d32" Codec.b32DecS), ("dec64", dec "d64" Codec.b64uDecS), ("dechex", dec "dhex" Codec.hexDecS)])
+    | "async" => do
+      let o ← asyncOp j
+      pure (o.setObjVal! "id" id)
     | "compare" => do
       let dec (k : String) : Except String (Option Cmp.GoVal) := do
         let o ← j.getObjVal? k
